@@ -63,7 +63,8 @@ def check_normalised(raw, out, mode, exact, where, tol_eps=EPS):
         return 'zero'
     outx = [F(float(v)) if not isinstance(v, (int, F)) else F(v) for v in outs]
     scale = max(abs(v) for v in rawx) / abs(factor)
-    tol = 0 if exact else 8 * F(tol_eps) * max(1, scale)
+    cond = sum(abs(v) for v in rawx) / abs(factor)      # conditioning of the floating-point normaliser (sum / range)
+    tol = 0 if exact else 8 * F(tol_eps) * max(1, scale) * (1 + len(rawx) * cond)
     # ratios (cross multiplication against the exact quotient)
     for r, o in zip(rawx, outx):
         if abs(o - r / factor) > tol * 2:
